@@ -9,33 +9,34 @@ open BreezyVerif.C33
 /-! ### the plan loop rewrites exactly `todo`, in order (no skipping) -/
 
 theorem planLoop_domain (g : PMap) (gen : Key → Key) (onto : Key) :
-    ∀ (todo : List Key) (plan plan' : Plan), planLoop g gen onto false plan todo = .ok plan' →
-      plan'.map (·.old) = plan.map (·.old) ++ todo ∧ ∀ e ∈ plan', e ∈ plan ∨ e.new = gen e.old := by
+    ∀ (todo : List Key) (st st' : Plan × Skipped), planLoop g gen onto false st todo = .ok st' →
+      st'.1.map (·.old) = st.1.map (·.old) ++ todo ∧ st'.2 = st.2 ∧
+      ∀ e ∈ st'.1, e ∈ st.1 ∨ (e.new = gen e.old ∧ gen e.old ≠ e.old) := by
   intro todo
   induction todo with
   | nil =>
-    intro plan plan' h
+    intro st st' h
     simp only [planLoop] at h
     cases h
-    exact ⟨by simp, fun e he => Or.inl he⟩
+    exact ⟨by simp, rfl, fun e he => Or.inl he⟩
   | cons old todo ih =>
-    intro plan plan' h
+    intro st st' h
     simp only [planLoop] at h
     split at h
     · cases h
-    · rename_i plan1 hstep
-      obtain ⟨p0, rest, _, hp1⟩ := planStep_noskip hstep
-      obtain ⟨h1, h2⟩ := ih plan1 plan' h
+    · rename_i st1 hstep
+      obtain ⟨p0, rest, _, hg, hp1⟩ := planStep_noskip hstep
+      obtain ⟨h1, h2, h3⟩ := ih st1 st' h
       subst hp1
-      refine ⟨by simp [h1], ?_⟩
+      refine ⟨by simp [h1], h2, ?_⟩
       intro e he
-      rcases h2 e he with h3 | h3
-      · rcases List.mem_append.mp h3 with h4 | h4
-        · exact Or.inl h4
-        · simp only [List.mem_singleton] at h4
-          subst h4
-          exact Or.inr rfl
-      · exact Or.inr h3
+      rcases h3 e he with h4 | h4
+      · rcases List.mem_append.mp h4 with h5 | h5
+        · exact Or.inl h5
+        · simp only [List.mem_singleton] at h5
+          subst h5
+          exact Or.inr ⟨rfl, hg⟩
+      · exact Or.inr h4
 
 theorem indexOf_head (x : Key) (l : List Key) : indexOf? (x :: l) x = some 0 := by
   simp [indexOf?, List.findIdx_cons]
@@ -79,7 +80,7 @@ theorem simplePlan_ok {g : PMap} {gen : Key → Key} {todoS order : List Key} {s
     ∃ stopK startK i j, (stop = some stopK ∨ (stop = none ∧ order.getLast? = some stopK)) ∧
       order.head? = some startK ∧ indexOf? order startK = some i ∧ indexOf? order stopK = some j ∧
       unrelated g stopK onto = false ∧
-      planLoop g gen onto skip [] ((order.drop i).take (j + 1 - i)) = .ok plan := by
+      ∃ sk, planLoop g gen onto skip ([], []) ((order.drop i).take (j + 1 - i)) = .ok (plan, sk) := by
   unfold simplePlan at h
   have hany : (none : Option Key).any (fun x => decide (x ∉ todoS)) = false := rfl
   simp only [hany, Bool.false_eq_true, if_false] at h
@@ -117,15 +118,20 @@ theorem simplePlan_ok {g : PMap} {gen : Key → Key} {todoS order : List Key} {s
               | none => simp [hi, hj] at h
               | some j =>
                 simp only [hi, hj] at h
-                exact ⟨stopK, s0, i, j, hstopK, rfl, hi, hj, by simpa using hu, h⟩
+                cases hl : planLoop g gen onto skip ([], []) ((order.drop i).take (j + 1 - i)) with
+                | error e => simp [hl] at h
+                | ok st =>
+                  simp only [hl, Except.ok.injEq] at h
+                  subst h
+                  exact ⟨stopK, s0, i, j, hstopK, rfl, hi, hj, by simpa using hu, st.2, by rw [hl]⟩
 
 /-- the whole `order` is the slice when `stop` is `None` or the last revision of `order` -/
 theorem simplePlan_loop {g : PMap} {gen : Key → Key} {todoS order : List Key} {stop : Option Key}
     {onto : Key} {skip : Bool} {plan : Plan} (hnd : order.Nodup)
     (hstop : ∀ s, stop = some s → order.getLast? = some s)
     (h : simplePlan g gen todoS order none stop onto skip = .ok plan) :
-    planLoop g gen onto skip [] order = .ok plan := by
-  obtain ⟨stopK, startK, i, j, hs, hh, hi, hj, _, hl⟩ := simplePlan_ok h
+    ∃ sk, planLoop g gen onto skip ([], []) order = .ok (plan, sk) := by
+  obtain ⟨stopK, startK, i, j, hs, hh, hi, hj, _, sk, hl⟩ := simplePlan_ok h
   have hlast : order.getLast? = some stopK := by
     rcases hs with h1 | ⟨_, h2⟩
     · exact hstop stopK h1
@@ -138,7 +144,7 @@ theorem simplePlan_loop {g : PMap} {gen : Key → Key} {todoS order : List Key} 
     rw [indexOf_head] at hi
     rw [indexOf_getLast _ _ hnd hlast] at hj
     cases hi; cases hj
-    simpa using hl
+    exact ⟨sk, by simpa using hl⟩
 
 /-- walking the plan in order with the new ids seen so far -/
 def PlanClosed (g : PMap) (onto : Key) : List Key → Plan → Prop
@@ -165,59 +171,137 @@ def topoFrom (g : PMap) : List Key → Bool
   | [] => true
   | old :: rest => (parentsL g old).all (fun p => p != old && !(rest.contains p)) && topoFrom g rest
 
-theorem planLoop_closed (g : PMap) (gen : Key → Key) (tip onto : Key) :
-    ∀ (todo done : List Key) (plan plan' : Plan),
+theorem planLoop_closed (g : PMap) (gen : Key → Key) (tip onto : Key) (skip : Bool) :
+    ∀ (todo done : List Key) (st st' : Plan × Skipped),
       (∀ k, k ∈ done ++ todo ↔ (k ∈ todoSet g tip onto ∧ present g k = true)) →
-      topoFrom g todo = true → plan.map (·.old) = done →
-      PlanClosed g onto [] plan →
-      planLoop g gen onto false plan todo = .ok plan' → PlanClosed g onto [] plan' := by
+      topoFrom g todo = true →
+      (∀ k ∈ done, k ∈ st.1.map (·.old) ∨ k ∈ st.2.map (·.1)) →
+      (∀ kv ∈ st.2, kv.2 = onto ∨ ∃ e ∈ st.1, e.new = kv.2) →
+      PlanClosed g onto [] st.1 →
+      planLoop g gen onto skip st todo = .ok st' → PlanClosed g onto [] st'.1 := by
   intro todo
   induction todo with
   | nil =>
-    intro done plan plan' _ _ _ hc h
+    intro done st st' _ _ _ _ hc h
     simp only [planLoop] at h
     cases h
     exact hc
   | cons old todo ih =>
-    intro done plan plan' hmem htopo hdone hc h
+    intro done st st' hmem htopo hdone hsk hc h
     simp only [planLoop] at h
     split at h
     · cases h
-    · rename_i plan1 hstep
-      obtain ⟨p0, rest, hps, hp1⟩ := planStep_noskip hstep
+    · rename_i st1 hstep
+      obtain ⟨p0, rest, hps, hcase⟩ := planStep_cases hstep
       simp only [topoFrom, Bool.and_eq_true, List.all_eq_true, bne_iff_ne, Bool.not_eq_true',
         List.contains_eq_mem, decide_eq_false_iff_not] at htopo
       have hold : old ∈ todoSet g tip onto := ((hmem old).mp (by simp)).1
       have holdA : old ∈ anc g tip := by
         unfold todoSet at hold
         exact (List.mem_filter.mp hold).1
-      apply ih (done ++ [old]) plan1 plan' (by simpa [List.append_assoc] using hmem) htopo.2
-        (by subst hp1; simp [hdone]) _ h
-      subst hp1
-      apply planClosed_append g onto plan [] _ hc
-      intro p hp
-      rcases newParents_src g onto plan p0 rest p hp with h1 | ⟨e, he, h1⟩ | ⟨h1, h2, h3⟩
-      · exact Or.inl h1
-      · exact Or.inr (Or.inl (by simp only [List.nil_append]; exact List.mem_map.mpr ⟨e, he, h1⟩))
-      · -- an old parent kept: it is not merged into onto and has no entry, so it is a ghost
-        right; right
-        have hpA : p ∈ anc g tip := anc_parent holdA hps h1
-        have hnm : p ∉ anc g onto := by
-          intro hm
-          unfold mergedInto at h2
-          simp [hm] at h2
-        cases hpp : parentsOf g p with
-        | none => rfl
-        | some pps =>
-          exfalso
-          have hin : p ∈ done ++ old :: todo := (hmem p).mpr
-            ⟨by unfold todoSet; simp [List.mem_filter, hpA, hnm], present_iff.mpr ⟨pps, hpp⟩⟩
-          have hpl : p ∈ parentsL g old := mem_parentsL.mpr ⟨_, hps, h1⟩
-          have := htopo.1 p hpl
-          rcases List.mem_append.mp hin with h4 | h4
-          · exact h3 (hdone ▸ h4)
-          · rcases List.mem_cons.mp h4 with h5 | h5
-            · exact this.1 h5
-            · exact this.2 h5
+      have hsrc := newParents_src g onto st.1 st.2 p0 rest
+      -- a stand-in is the new base or a new id already in the plan
+      have res1 : ∀ x, Src1 onto st.1 st.2 x → x = onto ∨ ∃ e ∈ st.1, e.new = x := by
+        intro x hx
+        rcases hx with h1 | h1 | ⟨kv, hkv, h1⟩
+        · exact Or.inl h1
+        · exact Or.inr h1
+        · rcases hsk kv hkv with h2 | h2
+          · exact Or.inl (h1 ▸ h2)
+          · exact Or.inr (h1 ▸ h2)
+      rcases hcase with ⟨hst, _, _, _⟩ | ⟨hst, _⟩
+      · -- skipped merge: recorded with its stand-in
+        subst hst
+        apply ih (done ++ [old]) (st.1, st.2 ++ [(old, (newParents g onto st.1 st.2 p0 rest).1)]) st'
+          (by simpa [List.append_assoc] using hmem) htopo.2 _ _ hc h
+        · intro k hk
+          rcases List.mem_append.mp hk with hk | hk
+          · rcases hdone k hk with h1 | h1
+            · exact Or.inl h1
+            · exact Or.inr (by simp only [List.map_append, List.mem_append]; exact Or.inl h1)
+          · simp only [List.mem_singleton] at hk
+            subst hk
+            exact Or.inr (by simp)
+        · intro kv hkv
+          rcases List.mem_append.mp hkv with hkv | hkv
+          · exact hsk kv hkv
+          · simp only [List.mem_singleton] at hkv
+            subst hkv
+            exact res1 _ hsrc.1
+      · -- one entry appended
+        subst hst
+        apply ih (done ++ [old]) (st.1 ++ [⟨old, gen old, (newParents g onto st.1 st.2 p0 rest).1 ::
+          (newParents g onto st.1 st.2 p0 rest).2⟩], st.2) st'
+          (by simpa [List.append_assoc] using hmem) htopo.2 _ _ _ h
+        · intro k hk
+          rcases List.mem_append.mp hk with hk | hk
+          · rcases hdone k hk with h1 | h1
+            · exact Or.inl (by simp only [List.map_append, List.mem_append]; exact Or.inl h1)
+            · exact Or.inr h1
+          · simp only [List.mem_singleton] at hk
+            subst hk
+            exact Or.inl (by simp)
+        · intro kv hkv
+          rcases hsk kv hkv with h1 | ⟨e, he, h1⟩
+          · exact Or.inl h1
+          · exact Or.inr ⟨e, List.mem_append_left _ he, h1⟩
+        · apply planClosed_append g onto st.1 [] _ hc
+          intro p hp
+          have toNews : (∃ e ∈ st.1, e.new = p) → p ∈ [] ++ st.1.map (·.new) := by
+            rintro ⟨e, he, h1⟩
+            simp only [List.nil_append]
+            exact List.mem_map.mpr ⟨e, he, h1⟩
+          rcases List.mem_cons.mp hp with hp | hp
+          · rcases res1 _ hsrc.1 with h1 | h1
+            · exact Or.inl (hp ▸ h1)
+            · exact Or.inr (Or.inl (toNews (hp ▸ h1)))
+          · rcases hsrc.2 p hp with h1 | h1 | h1 | ⟨h1, h2, h3, h4⟩
+            · exact Or.inl h1
+            · exact Or.inr (Or.inl (toNews h1))
+            · rcases res1 p (Or.inr (Or.inr h1)) with h5 | h5
+              · exact Or.inl h5
+              · exact Or.inr (Or.inl (toNews h5))
+            · -- an old parent kept: not merged into onto, neither rewritten nor skipped ⇒ a ghost
+              right; right
+              have hpA : p ∈ anc g tip := anc_parent holdA hps h1
+              have hnm : p ∉ anc g onto := by
+                intro hm
+                unfold mergedInto at h2
+                simp [hm] at h2
+              cases hpp : parentsOf g p with
+              | none => rfl
+              | some pps =>
+                exfalso
+                have hin : p ∈ done ++ old :: todo := (hmem p).mpr
+                  ⟨by unfold todoSet; simp [List.mem_filter, hpA, hnm], present_iff.mpr ⟨pps, hpp⟩⟩
+                have hpl : p ∈ parentsL g old := mem_parentsL.mpr ⟨_, hps, h1⟩
+                have := htopo.1 p hpl
+                rcases List.mem_append.mp hin with h5 | h5
+                · rcases hdone p h5 with h6 | h6
+                  · exact h3 h6
+                  · exact h4 h6
+                · rcases List.mem_cons.mp h5 with h6 | h6
+                  · exact this.1 h6
+                  · exact this.2 h6
+
+/-- entries and skip records are never removed -/
+theorem planLoop_mono (g : PMap) (gen : Key → Key) (onto : Key) (skip : Bool) :
+    ∀ (todo : List Key) (st st' : Plan × Skipped), planLoop g gen onto skip st todo = .ok st' →
+      (∀ k ∈ st.1.map (·.old), k ∈ st'.1.map (·.old)) ∧ (∀ k ∈ st.2.map (·.1), k ∈ st'.2.map (·.1)) := by
+  intro todo
+  induction todo with
+  | nil => intro st st' h; simp only [planLoop] at h; cases h; exact ⟨fun k hk => hk, fun k hk => hk⟩
+  | cons o t ih =>
+    intro st st' h
+    simp only [planLoop] at h
+    split at h
+    · cases h
+    · rename_i st1 hs
+      obtain ⟨h1, h2⟩ := ih st1 st' h
+      obtain ⟨_, _, _, hc | hc⟩ := planStep_cases hs
+      · rw [hc.1] at h1 h2
+        exact ⟨h1, fun k hk => h2 k (by simp only [List.map_append, List.mem_append]; exact Or.inl hk)⟩
+      · rw [hc.1] at h1 h2
+        exact ⟨fun k hk => h1 k (by simp only [List.map_append, List.mem_append]; exact Or.inl hk), h2⟩
 
 end BreezyVerif.C51
